@@ -184,11 +184,7 @@ def check(ctx):
         rp = json.load(open(ctx.replay))
         cases = [rp["case"]] if "case" in rp else []
     else:
-        corpus = []
-        cdir = os.path.join(VERIF, "corpus", "C19")
-        if os.path.isdir(cdir):
-            corpus = [json.load(open(os.path.join(cdir, f))) for f in sorted(os.listdir(cdir)) if f.endswith(".json")]
-        cases = corpus + [gen_case(ctx.rng) for _ in range(n_small)] + [gen_case(ctx.rng, big=True) for _ in range(n_big)]
+        cases = load_corpus("C19") + [gen_case(ctx.rng) for _ in range(n_small)] + [gen_case(ctx.rng, big=True) for _ in range(n_big)]
     outs = run_impl(ctx, "c19", "impl", cases)
     crashed = [i for i, r in enumerate(outs) if isinstance(r, dict)]
     good = [i for i in range(len(cases)) if i not in crashed]
@@ -197,24 +193,10 @@ def check(ctx):
     assert not gfalse, "generator produced non-increasing times"
     ctx.note(f"E1: {len(cases)} scripts, {sum(len(c['ops']) for c in cases)} operations; impl-vs-Impl mismatches {len(badI)}, "
              f"impl-vs-Spec mismatches {len(badS)}, harness/worker errors {len(crashed)}")
-    reported = False
-    for i in (crashed + badS)[:3]:
-        small = shrink(ctx, cases[i]) if i in badS else cases[i]
-        _, r = fails(ctx, small, "final")
-        path = write_replay(ctx, "counterexample", dict(
-            case=small, implementation_output=r,
-            model_output=model_outputs(ctx, small, r if not isinstance(r, dict) else [], "final") if not isinstance(r, dict) else None,
-            what="real DDEHistory disagrees with the specification (Spec.arun: piecewise-linear interpolant of the accepted records)"))
-        violation(ctx, path); reported = True
-    if not reported and badI:
-        # the code still meets Spec on everything explored but no longer matches the mechanism model
-        path = write_replay(ctx, "correspondence", dict(
-            broken="correspondence impl = History.run (mechanism model)", case=cases[badI[0]], implementation_output=outs[badI[0]],
-            model_output=model_outputs(ctx, cases[badI[0]], outs[badI[0]], "drift")))
-        violation(ctx, path, no_input=True); reported = True
-    if not reported and problem:
-        path = write_replay(ctx, "proof", dict(broken=problem, searched=len(cases)))
-        violation(ctx, path, no_input=True)
+    conclude(ctx, cases=cases, impl_out=outs, bad_spec=badS, bad_impl=badI, crashed=crashed, problem=problem,
+             spec_name="History.arun (piecewise-linear interpolant of the accepted records)", impl_name="History.run",
+             shrink=lambda c: shrink(ctx, c),
+             show=lambda c: (lambda r: dict(implementation_output=r, model_output=model_outputs(ctx, c, r, "show") if not isinstance(r, dict) else None))(fails(ctx, c, "show")[1]))
     nt = {canon(c) for c in cases if nontrivial(c)}
     hist = dict(bounded=sum(1 for c in cases if c["cap"] is not None), float32=sum(1 for c in cases if c["dtype"] == "float32"),
                 with_growth=sum(1 for c in cases if c["cap"] is None and sum(1 for o in c["ops"] if o[0] == "u") + 1 > c["init_cap"]),
